@@ -40,6 +40,16 @@ fn main() {
         "C03-sessions" => vcore::props::c03::run_sessions(&args, &mut rep),
         "C03-lean" => vcore::props::c03::run_lean(&args, &mut rep),
         "C03-components" => vcore::props::c03::run_components(&args, &mut rep),
+        "gen-decls" => {
+            // vrun gen-decls --seed S  <batch> <n_full> <n_names> <out file>
+            let b: usize = args.extra[0].parse().unwrap();
+            let nf: usize = args.extra[1].parse().unwrap();
+            let nn: usize = args.extra[2].parse().unwrap();
+            let decls = vcore::declgen::gen_batch(args.seed, b, nf, nn);
+            let src = vcore::declgen::emit_batch_main(&decls, args.seed, b, nf, nn);
+            std::fs::write(&args.extra[3], src).expect("write batch source");
+            return;
+        }
         "canary" => {
             vcore::props::c03::canary(args.extra.first().map(|s| s.as_str()).unwrap_or(""));
             return;
